@@ -1,7 +1,297 @@
-/-  C11/Driver — line protocol front end (core-only).  Placeholder until the property is built. -/
-import OttoVerif.Base.Proto
-namespace OttoVerif.C11.Driver
+/-
+  C11/Driver — line protocol front end (core-only).
+    parse t:<hex units>                         JSON.parse(text)
+    str <value> <replacer> <space>              JSON.stringify(value, replacer, space)
+  reply: <model> <spec> <dev>
 
-def handle (_ws : List String) : String := "bad-op"
+  value tokens (no spaces; hex digits are lower case, so upper-case letters and punctuation delimit):
+    U undefined  N null  T F booleans  D<16 hex> number  S<units>. string  X function
+    BD<16 hex> / BS<units>. / BT / BF  Number / String / Boolean objects
+    A<values>] array   O(<units>.<value>)*} object   J<value> object whose toJSON returns <value>
+    R<n>. reference to the n-th enclosing array/object (a cycle)
+  replacer: -  |  f<id> (function family, see `replFn`)  |  L<items>] with items S.. D.. BS.. BD.. Z(other)
+  space:    -  |  S.. D.. BS.. BD..  |  Z (anything else)
+  results:  parse: det:<value> | unord:<value with sorted keys> | throw:SyntaxError
+            str:   s:<hex units> | undefined | throw:TypeError
+-/
+import OttoVerif.Base.Proto
+import OttoVerif.C11.Spec
+namespace OttoVerif.C11.Driver
+open OttoVerif.F64 OttoVerif.Proto OttoVerif.C11
+
+/-! ### token reader -/
+
+def isHexC (c : Char) : Bool := ('0' ≤ c ∧ c ≤ '9') ∨ ('a' ≤ c ∧ c ≤ 'f')
+
+def takeHex (cs : List Char) : List Char × List Char := (cs.takeWhile isHexC, cs.dropWhile isHexC)
+
+/-- `<units>.` -/
+def readUnits (cs : List Char) : Option (Str × List Char) :=
+  let (h, r) := takeHex cs
+  match r with
+  | '.' :: r' => (units? (String.ofList h)).map fun u => (u, r')
+  | _ => none
+
+def readF64 (cs : List Char) : Option (FV × List Char) :=
+  if cs.length < 16 then none else (f64? (String.ofList (cs.take 16))).map fun x => (x, cs.drop 16)
+
+mutual
+partial def readSV (cs : List Char) : Option (SV × List Char) :=
+  match cs with
+  | 'U' :: r => some (.undef, r)
+  | 'N' :: r => some (.null, r)
+  | 'T' :: r => some (.bool true, r)
+  | 'F' :: r => some (.bool false, r)
+  | 'X' :: r => some (.func, r)
+  | 'D' :: r => (readF64 r).map fun p => (.num p.1, p.2)
+  | 'S' :: r => (readUnits r).map fun p => (.str p.1, p.2)
+  | 'B' :: 'T' :: r => some (.boxBool true, r)
+  | 'B' :: 'F' :: r => some (.boxBool false, r)
+  | 'B' :: 'D' :: r => (readF64 r).map fun p => (.boxNum p.1, p.2)
+  | 'B' :: 'S' :: r => (readUnits r).map fun p => (.boxStr p.1, p.2)
+  | 'J' :: r => (readSV r).map fun p => (.tojson p.1, p.2)
+  | 'R' :: r =>
+    let ds := r.takeWhile Char.isDigit
+    match r.dropWhile Char.isDigit with
+    | '.' :: r' => (String.ofList ds).toNat?.map fun n => (.back n, r')
+    | _ => none
+  | 'A' :: r => (readSVs r).map fun p => (.arr p.1, p.2)
+  | 'O' :: r => (readSMs r).map fun p => (.obj p.1, p.2)
+  | _ => none
+partial def readSVs (cs : List Char) : Option (SVs × List Char) :=
+  match cs with
+  | ']' :: r => some (.nil, r)
+  | _ => (readSV cs).bind fun p => (readSVs p.2).map fun q => (.cons p.1 q.1, q.2)
+partial def readSMs (cs : List Char) : Option (SMs × List Char) :=
+  match cs with
+  | '}' :: r => some (.nil, r)
+  | _ => (readUnits cs).bind fun k => (readSV k.2).bind fun p => (readSMs p.2).map fun q => (.cons k.1 p.1 q.1, q.2)
+end
+
+def sv? (t : String) : Option SV :=
+  match readSV t.toList with
+  | some (v, []) => some v
+  | _ => none
+
+/-! ### token writer -/
+
+mutual
+def jvTok : JV → String
+  | .null => "N"
+  | .bool b => if b then "T" else "F"
+  | .num x => "D" ++ f64Out x
+  | .str s => "S" ++ unitsOut s ++ "."
+  | .arr l => "A" ++ jvsTok l ++ "]"
+  | .obj m => "O" ++ jmsTok m ++ "}"
+def jvsTok : JVs → String
+  | .nil => ""
+  | .cons v t => jvTok v ++ jvsTok t
+def jmsTok : JMs → String
+  | .nil => ""
+  | .cons k v t => unitsOut k ++ "." ++ jvTok v ++ jmsTok t
+end
+
+/-! ### deviation regions of JSON.parse (decidable predicates on the request) -/
+
+def lenM : JMs → Nat
+  | .nil => 0
+  | .cons _ _ t => 1 + lenM t
+
+mutual
+/-- some object has two or more properties: their enumeration order is then observable -/
+def unordered : JV → Bool
+  | .arr l => unorderedL l
+  | .obj m => lenM m ≥ 2 || unorderedM m
+  | _ => false
+def unorderedL : JVs → Bool
+  | .nil => false
+  | .cons v t => unordered v || unorderedL t
+def unorderedM : JMs → Bool
+  | .nil => false
+  | .cons _ v t => unordered v || unorderedM t
+end
+
+/-- an escaped surrogate half that is not part of an escaped high+low pair -/
+def loneEsc : List Item → Bool
+  | [] => false
+  | .raw _ :: t => loneEsc t
+  | [.esc u] => isSurr u
+  | .esc u :: .esc w :: t => if isHi u ∧ isLo w then loneEsc t else isSurr u || loneEsc (.esc w :: t)
+  | .esc u :: .raw _ :: t => isSurr u || loneEsc t
+
+def overflows (n : NumLit) : Bool := match n.value with | .inf _ => true | _ => false
+
+mutual
+def rtAny (pn : NumLit → Bool) (ps : List Item → Bool) : RT → Bool
+  | .num n => pn n
+  | .str s => ps s
+  | .arr l => rtAnyL pn ps l
+  | .obj m => rtAnyM pn ps m
+  | _ => false
+def rtAnyL (pn : NumLit → Bool) (ps : List Item → Bool) : RTs → Bool
+  | .nil => false
+  | .cons v t => rtAny pn ps v || rtAnyL pn ps t
+def rtAnyM (pn : NumLit → Bool) (ps : List Item → Bool) : RMs → Bool
+  | .nil => false
+  | .cons k v t => ps k || rtAny pn ps v || rtAnyM pn ps t
+end
+
+def joinDev (ds : List String) : String := if ds.isEmpty then "-" else ",".intercalate ds
+
+def reply (m s dev : String) : String := m ++ " " ++ s ++ " " ++ dev
+
+def parseOut : Option JV → String
+  | none => "throw:SyntaxError"
+  | some v => (if unordered v then "unord:" else "det:") ++ jvTok v
+
+def handleParse (text : Str) : String :=
+  let m := C11.jsonParse text
+  let s := Spec.jsonParse text
+  let specTok := match s with | none => "throw:SyntaxError" | some v => "det:" ++ jvTok v
+  let rt := parseText text
+  let dev : List String :=
+    (match s with | some v => if unordered v then ["parse_key_order"] else [] | none => []) ++
+    (match rt with | some t => if rtAny overflows (fun _ => false) t then ["parse_num_overflow"] else [] | none => []) ++
+    (if goStr text != text then ["parse_lone_surrogate"]
+     else match rt with | some t => if rtAny (fun _ => false) loneEsc t then ["parse_lone_surrogate"] else [] | none => [])
+  reply (parseOut m) specTok (joinDev dev)
+
+/-! ### JSON.stringify -/
+
+def sA : Str := [97]
+
+def isObjectish : SV → Bool
+  | .null | .boxNum _ | .boxStr _ | .boxBool _ | .arr _ | .obj _ | .tojson _ | .back _ => true
+  | _ => false
+
+/-- the replacer function family (the harness holds the same table as JavaScript source) -/
+def replFn : Nat → Option (Str → SV → SV)
+  | 0 => some fun _ v => v
+  | 1 => some fun k v => if k = sA then .undef else v
+  | 2 => some fun _ v => match v with | .num _ => .undef | v => v
+  | 3 => some fun _ v => match v with | .str _ => .null | v => v
+  | 4 => some fun k v => if k = [] then .arr (.cons v (.cons v .nil)) else v
+  | 5 => some fun k v => if k ≠ [] ∧ isObjectish v then .null else v
+  | 6 => some fun _ v => match v with | .bool _ => .func | v => v
+  | 7 => some fun k v => match v with | .num _ => .str k | v => v
+  | _ => none
+
+partial def readItems (cs : List Char) : Option (List PLItem) :=
+  match cs with
+  | [']'] => some []
+  | 'Z' :: r => (readItems r).map (PLItem.other :: ·)
+  | 'S' :: r => (readUnits r).bind fun p => (readItems p.2).map (PLItem.str p.1 :: ·)
+  | 'D' :: r => (readF64 r).bind fun p => (readItems p.2).map (PLItem.num p.1 :: ·)
+  | 'B' :: 'S' :: r => (readUnits r).bind fun p => (readItems p.2).map (PLItem.boxStr p.1 :: ·)
+  | 'B' :: 'D' :: r => (readF64 r).bind fun p => (readItems p.2).map (PLItem.boxNum p.1 :: ·)
+  | _ => none
+
+def replacer? (t : String) : Option Replacer :=
+  match t.toList with
+  | ['-'] => some .none
+  | 'f' :: ds => ((String.ofList ds).toNat?.bind replFn).map Replacer.fn
+  | 'L' :: r => (readItems r).map Replacer.list
+  | _ => none
+
+def space? (t : String) : Option Space :=
+  match t.toList with
+  | ['-'] => some .absent
+  | ['Z'] => some .other
+  | 'S' :: r => match readUnits r with | some (s, []) => some (.str s) | _ => none
+  | 'B' :: 'S' :: r => match readUnits r with | some (s, []) => some (.str s) | _ => none
+  | 'D' :: r => match readF64 r with | some (x, []) => some (.num x) | _ => none
+  | 'B' :: 'D' :: r => match readF64 r with | some (x, []) => some (.num x) | _ => none
+  | _ => none
+
+def outTok : Out → String
+  | .text s => "s:" ++ unitsOut s
+  | .undef => "undefined"
+  | .typeError => "throw:TypeError"
+  | .oof => "oof"
+
+def numStr (x : FV) : Str := C06.Spec.toStringNum x
+
+def lib : C06.Lib := C06.Spec.exactLib
+
+def htmlChar (c : Nat) : Bool := c = 60 || c = 62 || c = 38 || c = 0x2028 || c = 0x2029
+
+def sortedKeys : JMs → Bool
+  | .nil => true
+  | .cons _ _ .nil => true
+  | .cons k _ (.cons k' v' t) => ltKeyBytes k k' && sortedKeys (.cons k' v' t)
+
+/-- the exact integer expansion Go prints differs from the ES5 shortest-digits form -/
+def intDigitsDiffer (x : FV) : Bool :=
+  match x with
+  | .fin s m e =>
+    m != 0 && isIntegral m e && decide (truncAbs m e < 2 ^ 63) &&
+      (C06.formatInt (truncInt (.fin s m e)) 10 != C06.Spec.toStringNum x)
+  | _ => false
+
+mutual
+def jvAny (pn : FV → Bool) (ps : Str → Bool) (pm : JMs → Bool) : JV → Bool
+  | .num x => pn x
+  | .str s => ps s
+  | .arr l => jvAnyL pn ps pm l
+  | .obj m => pm m || jvAnyM pn ps pm m
+  | _ => false
+def jvAnyL (pn : FV → Bool) (ps : Str → Bool) (pm : JMs → Bool) : JVs → Bool
+  | .nil => false
+  | .cons v t => jvAny pn ps pm v || jvAnyL pn ps pm t
+def jvAnyM (pn : FV → Bool) (ps : Str → Bool) (pm : JMs → Bool) : JMs → Bool
+  | .nil => false
+  | .cons k v t => ps k || jvAny pn ps pm v || jvAnyM pn ps pm t
+end
+
+def no1 {α : Type} : α → Bool := fun _ => false
+
+/-- a skipped item (rejected or duplicate) in front of an accepted one: otto then stores names
+    at the wrong slots -/
+def plSkipBeforeAccept (items : List PLItem) : Bool :=
+  let rec go : List PLItem → List Str → Bool → Bool
+    | [], _, _ => false
+    | it :: rest, seen, skipped =>
+      match Spec.PLItem.name numStr it with
+      | none => go rest seen true
+      | some n => if seen.contains n then go rest seen true else skipped || go rest (n :: seen) skipped
+  go items [] false
+
+def gapDev (sp : Space) : Bool :=
+  match sp with
+  | .str s => (s.take 10).any (· ≥ 128) && (decide ((Str.bytesOfUnits s).length > 10) || goStr s != s)
+  | _ => false
+
+def fuelOf (t : String) : Nat := 4 * t.length + 16
+
+def handleStr (vt : String) (v : SV) (r : Replacer) (sp : Space) : String :=
+  let fuel := fuelOf vt
+  let m := C11.jsonStringify lib numStr fuel v r sp
+  let s := Spec.jsonStringify numStr fuel v r sp
+  let tree := Spec.serial (Spec.sctxOf numStr r) fuel 0 [] v
+  let treeDev : List String := match tree with
+    | .val t =>
+      (if jvAny no1 no1 (fun m => !sortedKeys m) t then ["str_key_order"] else []) ++
+      (if jvAny no1 (fun s => s.any htmlChar) no1 t then ["str_html_escape"] else []) ++
+      (if jvAny no1 (fun s => goStr s != s) no1 t then ["str_lone_surrogate"] else []) ++
+      (if jvAny intDigitsDiffer no1 no1 t then ["str_int_digits"] else [])
+    | _ => []
+  let dev := treeDev ++
+    (match r with | .list items => if plSkipBeforeAccept items then ["str_proplist_slots"] else [] | _ => []) ++
+    (if gapDev sp then ["str_gap_bytes"] else [])
+  reply (outTok m) (outTok s) (joinDev dev)
+
+def handle (ws : List String) : String :=
+  match ws with
+  | ["parse", t] =>
+    if t.startsWith "t:" then
+      match units? (String.ofList (t.toList.drop 2)) with
+      | some u => handleParse u
+      | none => "bad-op"
+    else "bad-op"
+  | ["str", vt, rt, st] =>
+    match sv? vt, replacer? rt, space? st with
+    | some v, some r, some sp => handleStr vt v r sp
+    | _, _, _ => "bad-op"
+  | _ => "bad-op"
 
 end OttoVerif.C11.Driver
